@@ -1023,6 +1023,8 @@ class Explorer:
         self.path_log: List[Dict[str, Any]] = []
         self.solver_exceptions: List[str] = []
         self.incremental_timeout_ms = 1000
+        self.stmt_cov: Dict[str, set] = {}  # function key -> line numbers of statements executed on some path
+        self.stmt_all: Dict[str, List[int]] = {}  # function key -> line numbers of all its statements
 
     def push(self, prefix: List[int]) -> None:
         self.pending.append(prefix)
